@@ -32,15 +32,28 @@ def _patches(only):
     return out
 
 
+def _benign(only):
+    out = []
+    for p in sorted(glob.glob(os.path.join(VERIF, "benign", "*.patch"))):
+        name = "benign/" + os.path.basename(p)[:-6]
+        first = open(p).readline()
+        props = first.split(":", 1)[1].split() if first.startswith("# props:") else ["C%02d" % i for i in range(1, 21)]
+        out.append((name, p, props))
+    if only:
+        out = [x for x in out if any(o in x[0] for o in only)]
+    return out
+
+
 def main(argv):
     only = [a for a in argv if not a.startswith("--")]
+    benign = "--benign" in argv
     runs = None
     for a in argv:
         if a.startswith("--runs="):
             runs = a.split("=")[1]
     results = []
     repo = os.environ.get("VERIF_REPO", "/repo")
-    for (name, patch, props) in _patches(only):
+    for (name, patch, props) in (_benign(only) if benign else _patches(only)):
         work = "/tmp/verif-mut-%d-%s" % (os.getpid(), name.replace("/", "_"))
         shutil.rmtree(work, ignore_errors=True)
         os.makedirs(work)
@@ -65,12 +78,21 @@ def main(argv):
                 sigs = [l.strip() for l in q.stdout.splitlines() if l.strip().startswith("signature:")]
                 results.append({"mutant": name, "property": prop, "rc": q.returncode, "killed": q.returncode == 1 and bool(viol),
                                 "signatures": sigs[:3], "wall_s": round(time.time() - t0, 1)})
-                print("%-45s %s %-8s rc=%d %5.1fs %s" % (name, prop, "KILLED" if q.returncode == 1 and viol else "SURVIVED", q.returncode,
-                                                      time.time() - t0, (sigs[0][:110] if sigs else "")))
+                if benign:
+                    results[-1]["quiet"] = q.returncode == 0 and not viol
+                    if q.returncode not in (0, 1):
+                        results[-1]["tail"] = (q.stdout + q.stderr)[-400:]
+                    print("%-45s %s %-8s rc=%d %5.1fs %s" % (name, prop, "QUIET" if results[-1]["quiet"] else "ALARM", q.returncode,
+                                                          time.time() - t0, (sigs[0][:110] if sigs else "")))
+                else:
+                    print("%-45s %s %-8s rc=%d %5.1fs %s" % (name, prop, "KILLED" if q.returncode == 1 and viol else "SURVIVED", q.returncode,
+                                                          time.time() - t0, (sigs[0][:110] if sigs else "")))
                 sys.stdout.flush()
         finally:
             shutil.rmtree(work, ignore_errors=True)
     os.makedirs(os.path.join(VERIF, "selftest"), exist_ok=True)
-    with open(os.path.join(VERIF, "selftest", "mutants.json"), "w") as f:
+    with open(os.path.join(VERIF, "selftest", "benign.json" if benign else "mutants.json"), "w") as f:
         json.dump({"repo_tree": runner.repo_tree_id(), "results": results}, f, indent=1)
+    if benign:
+        return 0 if all(r.get("quiet") for r in results) else 1
     return 0
